@@ -247,3 +247,25 @@ for _p in ("C02", "C04", "C05", "C07", "C08", "C13", "C14", "C15"):
 
 # "fail leads to the rollback" (C19) is the rollback of C07: its clauses count for C19 on the streams C19 runs
 PROPS["C19"]["adopt"] = list(PROPS["C19"].get("adopt", [])) + ["C07"]
+
+# ---- history / store-level / cluster-level theorems (sixth round) -------------------------------
+# EdsProps/C02c: store-level convergence of the active replica set (reconcileErs + API server + kubelet)
+# EdsProps/C06b, C09c, C11b: restart timeline, spacing over any run, uniqueness of the fixpoint
+# EdsProps/L3 over EdsModel/Cluster.lean: ONE state machine of the cluster, invariants by induction over
+# arbitrary operation sequences (with and without dropped writes)
+L3M = "EdsProps.L3"
+MORE = {
+    "C02": [("EdsProps.C02c", "re:^(C02|calculateMaxCreation_)"), ("EdsProps.C11b", "C11_quiescent_no_write")],
+    "C06": [("EdsProps.C06b", "C06_")],
+    "C09": [("EdsProps.C09c", "C09_"), ("EdsProps.C02c", "calculateMaxCreation_")],
+    "C11": [("EdsProps.C11b", "C11_"), (L3M, "re:_faults$"), (L3M, "re:_stepF$")],
+    "C14": [("EdsProps.C11b", "C11_quiescent_counters")],
+    "C13": [(L3M, "re:^L3_(hashesNodup|allHashed|annot|names|one_per_template|all_hashed|at_most_one|survives|active_never|uptodate_never|selected_uptodate|never_deletes|removed_only|active_not|uptodate_not)")],
+    "C15": [(L3M, "re:^L3_canary(Nodup|_nodup)")],
+    "C04": [(L3M, "re:^L3_(canary_bound|role_|roles_|role_changes)")],
+    "C05": [(L3M, "re:^L3_promotion")],
+    "C12": [(L3M, "re:^L3_(foreign|created_pods_owned|eds_reconcile_writes_no_pod|ers_written|status_written|eds_object_frame)")],
+    "C01": [(L3M, "re:^L3_one_per_node")],
+}
+for _p, _l in MORE.items():
+    PROPS[_p]["extra_theorems"] = PROPS[_p].get("extra_theorems", []) + _l
